@@ -764,6 +764,23 @@ Definition replace (subst : N -> bytes -> bytes) (s : bytes) : res bytes :=
 (* ------------------------------------------------------------------------------------------ *)
 (* TLS record: 3 header bytes (content type, legacy version: clientHelloConn does not look at
    them), 16-bit length, body *)
+Definition without_exts (h : hello) : hello :=
+  mkHello (h_version h) (h_random h) (h_sid h) (h_ciphers h) (h_comp h) [].
+(* the four things a truncated hello can be recorded as *)
+Definition stage_info (h : hello) (s : nat) : info :=
+  match s with
+  | 0%nat => info0
+  | 1%nat => mkInfo (h_version h) [] [] [] [] []
+  | 2%nat => mkInfo (h_version h) (h_ciphers h) [] [] [] []
+  | _ => mkInfo (h_version h) (h_ciphers h) [] (h_comp h) [] []
+  end.
+Definition cut_stage (h : hello) (k : nat) : nat :=
+  if (k <? 42)%nat then 0%nat
+  else if (k <? 41 + length (h_sid h) + 2 * length (h_ciphers h))%nat then 1%nat
+  else if (k <? 42 + length (h_sid h) + 2 * length (h_ciphers h) + length (h_comp h))%nat then 2%nat
+  else 3%nat.
+
+
 Definition tls_record (hdr3 body : bytes) : bytes := hdr3 ++ be16 (nlen body) ++ body.
 (* server_name (0) with one host_name entry, ALPN (16) with a protocol list: both are [EOther]
    for parseRawClientHello, which records the type and skips the body *)
@@ -980,7 +997,31 @@ Inductive case :=
 | CTls (wire : bytes) (sizes : list nat) (ok : bool) (obs_rec : option info) (obs_direct : info)
 (* code paths that are exercised but not modelled (net/http parsing in front of basicauth,
    matchers, cookies ...): only panic / no panic is judged *)
-| CTotal (kind : N) (obs_panic : bool).
+| CTotal (kind : N) (obs_panic : bool)
+(* a structured hello followed by [g] through parseRawClientHello *)
+| CHelloTrail (h : hello) (g : bytes) (data : bytes) (obs : option info)
+(* the first [k] bytes of a structured hello through parseRawClientHello *)
+| CHelloCut (h : hello) (k : nat) (data : bytes) (obs : option info)
+(* websocket `type text` in front of an echoing command: the peer's message [data] comes back as
+   one text message [obs] cut before an incomplete trailing UTF-8 sequence *)
+| CWs (data : bytes) (obs_panic : bool) (obs : bytes)
+(* END TO END: a structured hello framed as a TLS record, followed by [rest], cut into reads of
+   [sizes], through clientHelloConn: what is recorded *)
+| CHelloConn (h : hello) (rest : bytes) (wire : bytes) (sizes : list nat) (obs_panic : bool) (obs_rec : option info)
+(* the running TLS server (real tlsHelloListener.Accept, pooled buffers): earlier connections wrote
+   [stale] (each one write: a hello record and more), then a real handshake whose ClientHello
+   record is [wire]; obs_rec = recorded for that last connection, obs_direct = the implementation's
+   parse of its record body *)
+| CPool (stale : list bytes) (wire : bytes) (ok : bool) (obs_rec : option info) (obs_direct : info)
+(* FastCGI response bytes delivered by the underlying connection in reads [segs]; [rs] = the
+   records the bytes were built from, if any (tail: 0 end-request, 1 close); obs1/oe1 = what the
+   implementation returned for the same bytes delivered in one piece *)
+| CStreamSeg (rs : option (list frec * N)) (segs : list bytes) (obs_panic : bool) (obs : bytes) (obs_err : N)
+             (obs1 : bytes) (oe1 : N)
+(* {labelN} with Host [host]; obs = None for the empty value *)
+| CLabel (host nstr : bytes) (obs_panic : bool) (obs : option bytes)
+(* proxy: X-Forwarded-For values sent by the peer, connection address; obs = header at the backend *)
+| CXff (prior : option (list bytes)) (ip : bytes) (obs_panic : bool) (obs : bytes).
 
 (* values of the placeholders as observed from the implementation; a placeholder that is not in
    the table gets what getSubstitution returns for unknown names: "" for {?name} and {$name}
@@ -1106,4 +1147,62 @@ Definition judge (c : case) : N :=
         end in
       verdict agree (ok && oinfo_beq orec (Some odirect))
   | CTotal _ op => verdict true (negb op)
+  | CHelloTrail h g data obs =>
+      verdict (beq (encode_hello h ++ g) data && oinfo_beq (res_oinfo (parse_raw_client_hello data)) obs)
+              (negb (hello_wf h) ||
+               oinfo_beq obs (Some (info_of (match g with [] => h | _ => without_exts h end))))
+  | CHelloCut h k data obs =>
+      verdict (beq (firstn k (encode_hello h)) data && oinfo_beq (res_oinfo (parse_raw_client_hello data)) obs)
+              (negb (hello_wf h) || negb (k <? length (encode_hello h))%nat ||
+               oinfo_beq obs (Some (stage_info h (cut_stage h k))))
+  | CWs data op obs =>
+      let agree := match find_incomplete_rune_length data (length data) with
+                   | Panic => op
+                   | Ok r => negb op && beq obs (firstn (length data - r) data)
+                   end in
+      verdict agree (negb op && prefixb obs data && (length data <=? length obs + 3)%nat)
+  | CHelloConn h rest wire sizes op orec =>
+      let w := tls_record [22; 3; 1] (encode_hello h) ++ rest in
+      let agree := beq w wire &&
+                   match conn_run conn0 (cut wire sizes) with
+                   | Panic => op
+                   | Ok st => negb op && oinfo_beq (c_recorded st) orec
+                   end in
+      let complete := (5 + length (encode_hello h) <=? sum_nat sizes)%nat in
+      verdict agree (negb op &&
+                     (negb (hello_wf h && (nlen (encode_hello h) <? 65536)) ||
+                      oinfo_beq orec (if complete then Some (info_of h) else None)))
+  | CPool stale wire ok orec odirect =>
+      let n := length stale in
+      let evs := concat (map (fun iw => [EvAccept (fst iw) 0; EvRead (fst iw) (snd iw)])
+                             (combine (seq 0 n) stale)) ++ [EvAccept n 0; EvRead n wire] in
+      let agree := match l_run true (l_init []) evs with
+                   | Ok st => oinfo_beq (recorded_for st n) orec
+                   | Panic => false
+                   end in
+      verdict agree (ok && oinfo_beq orec (Some odirect))
+  | CStreamSeg rs segs op obs oe obs1 oe1 =>
+      let agree := match stream_read_segs false segs with
+                   | Panic => op
+                   | Ok (d, e) => negb op && beq d obs && (e =? oe)
+                   end &&
+                   match rs with
+                   | Some (l, tail) => beq (concat segs) (flat_map enc_rec l ++ (if tail =? 0 then end_request else []))
+                   | None => true
+                   end in
+      (* no panic; the same as for the bytes in one piece; the stdout the records were built from *)
+      verdict agree (negb op && beq obs obs1 && (oe =? oe1) &&
+                     match rs with
+                     | Some (l, _) => negb (forallb frec_wf l) || (beq obs (stdout_of l) && (oe =? 1))
+                     | None => true
+                     end)
+  | CLabel host nstr op obs =>
+      let agree := match label_subst host nstr with
+                   | Panic => op
+                   | Ok None => negb op && match obs with None => true | Some _ => false end
+                   | Ok (Some l) => negb op && match obs with Some o => beq l o | None => false end
+                   end in
+      verdict agree (negb op)
+  | CXff prior ip op obs =>
+      verdict (negb op && beq (xff_fold prior ip) obs) (negb op && beq (last_elem obs) ip)
   end.
